@@ -220,6 +220,20 @@ def check (c):
         # wire ends joined approximately are written with the consolidated coordinates: up to the matching tolerance
         if d > 1.1e-3 * min (s.seg_len for g in m.geo for s in g.segments) + 1e-12 * size:
             bad ('pulses', 'pulse-numbering', 'pulse positions differ by up to %.3g in the numbering of the BASIC description' % d)
+    # every (emulated) wire carries the radius the computation uses for that object (the equivalent
+    # radius when it is insulated), written with eight digits
+    mon ['radius'] = 1
+    k = 0
+    for g in m.geo:
+        for j in range (g.n_emulated_wires):
+            if k < len (r ['wires']):
+                wr = r ['wires'][k]['r']
+                if abs (wr - g.r) > 1e-7 * g.r:
+                    bad ('radius', 'wire-radius', 'object %s (emulated wire %d): radius %r written, the computation uses %r' % (g.tag, j + 1, wr, g.r))
+                    break
+            k += 1
+    if k != len (r ['wires']):
+        bad ('radius', 'wire-count', '%d wires written, %d expected' % (len (r ['wires']), k))
     # BASIC joins identical end points only
     mon ['exact-junctions'] = 1
     ends = [tuple (w ['p1']) for w in r ['wires']] + [tuple (w ['p2']) for w in r ['wires']]
